@@ -3,9 +3,9 @@ package main
 // C04 — emitted assembly is closed; C05 — -optimize changes layout only.
 
 import (
-	"strconv"
 	"fmt"
 	"go/types"
+	"strconv"
 	"strings"
 
 	"golang.org/x/tools/go/ssa"
